@@ -415,6 +415,56 @@ pub fn run(ctx: &mut Ctx) {
             }
         }
     }
+    // ---- long histories over the real defs: every symbol (and unknown ones) queried in random order on ONE
+    //      namespace, so the caches fill up completely; answers must still be the graph's -----------------
+    if let (Some(grid), Some(g)) = (real.as_ref(), real_graph.as_ref()) {
+        let n = ctx.n(1, 6);
+        for i in 0..n {
+            if !ctx.begin("long-history", i) {
+                continue;
+            }
+            let mut rng = ctx.case_rng("long-history", i);
+            let mut all: Vec<String> = g.is.keys().cloned().collect();
+            all.extend(["zzUnknown0".to_string(), "zzUnknown1".to_string(), "unknown-conjunct".to_string()]);
+            let mut script: Vec<Query> = Vec::new();
+            // first pass touches every symbol once (random query kind), second pass re-asks a random half, unknown symbols interleaved
+            for round in 0..2 {
+                let mut order = all.clone();
+                rng.shuffle(&mut order);
+                for s in order.iter().take(if round == 0 { order.len() } else { order.len() / 2 }) {
+                    let q = match rng.below(6) {
+                        0 => Query::Supertypes(s.clone()),
+                        1 => Query::AllSupertypes(s.clone()),
+                        2 | 3 => Query::Inheritance(s.clone()),
+                        4 => Query::Fits(s.clone(), all[rng.below(all.len())].clone()),
+                        _ => Query::Reflect(vec![(s.clone(), true)], all[rng.below(all.len())].clone()),
+                    };
+                    script.push(q);
+                    if rng.chance(1, 20) {
+                        let u = format!("zzUnknown{}", rng.below(2));
+                        script.push(if rng.coin() { Query::Supertypes(u) } else { Query::AllSupertypes(u) });
+                    }
+                }
+            }
+            let nq = script.len() as u64;
+            let out = run_trial(grid.clone(), g, vec![script], &HashMap::new(), crate::prng::mix(&[ctx.seed, ctx.shard, i, 77]), Duration::from_secs(20), false);
+            ctx.eval("long-history", crate::prng::mix(&[ctx.seed, ctx.shard, i]), true);
+            ctx.evaluations += nq;
+            ctx.note_max("max_queries_in_one_history", nq as f64);
+            if let Some(d) = out.deadlock {
+                ctx.violation("long-history:deadlock", &d, json!({}));
+                ctx.finish();
+                std::process::exit(0);
+            }
+            for p in out.panics.iter().take(3) {
+                ctx.violation("long-history:panic", &format!("after a long history: {p}"), json!({"queries": nq}));
+            }
+            for (q, a, o, _) in out.wrong.iter().take(3) {
+                let kind = format!("{q:?}");
+                ctx.violation(&format!("long-history:wrong-answer:{}", kind.split('(').next().unwrap_or("")), &format!("after a long history {kind} answered {} but the graph says {}", truncate(a, 200), truncate(o, 200)), json!({"queries": nq}));
+            }
+        }
+    }
     // ---- schedule: concurrent trials on cold namespaces ---------------------------------------------
     let n = ctx.n(20, 2_000);
     let mut fingerprints: std::collections::HashSet<u64> = std::collections::HashSet::new();
